@@ -101,6 +101,12 @@ def elabB : Expr → Option BoolE
       | some k, .eq => some (.isNull k c false)
       | some k, .ne => some (.isNull k c true)
       | _, _ => none
+  -- the same test with the literal on the left (`null eq c`): eq / ne are symmetric
+  | .compare op (.lit .null _) (.ident ⟨c, []⟩) =>
+      match colKindOf c, op with
+      | some k, .eq => some (.isNull k c false)
+      | some k, .ne => some (.isNull k c true)
+      | _, _ => none
   | .compare op l r =>
       match cmpKOf op with
       | none => none
